@@ -17,11 +17,12 @@ RUNTIME_ERROR = "wamp.error.runtime_error"
 
 VALUES = [None, True, False, 0, 1, -1, 2 ** 53, 2 ** 63 - 1, "", "a", "some text with \"quotes\" and \\ backslash",
           "ünï€\U0001f600", [], [1, [2, [3, None]]], {}, {"k": {"n": [1, "x"]}, "": 0}, 1.5, -0.25,
-          {"$b": "00ff10"}, ["traceback", "error"], "..."]
+          {"$b": "00ff10"}, ["traceback", "error"], "...", "0042", "1E5", "+4915112345", "0", "-0", "1e3", "Infinity", "NaN",
+          " 1", "1_0", "1.0", 1.0, ["0042", {"n": "1e3"}], {"1": "0", "0042": 1}, 2 ** 63, -(2 ** 63), 1e300]
 GOOD_URIS = ["com.myapp.error1", "com.myapp.error2", "com.myapp.sub.error3", "com.myapp.error_4"]
 BUILTIN_URIS = ["wamp.error.invalid_payload", "wamp.error.payload_size_exceeded", RUNTIME_ERROR]
 BAD_PATTERN = "com.myapp.BadPattern"                       # uri.Pattern rejects upper case components
-PLAIN_KEYS = ["a", "b", "msg", "x_y", "detail", "args", "kwargs", "message", "k9"]
+PLAIN_KEYS = ["a", "b", "msg", "x_y", "detail", "args", "kwargs", "message", "k9", "1", "0042", "1e3"]
 SPECIAL_KEYS = ["traceback", "error", "self"] + RESERVED
 CTORS = ["plain", "kw", "noarg", "kwonly", "raiseT", "raiseV", "raiseK", "falsy", "withcallee", "readonly"]
 CKIND = {"plain": "CPlain", None: "CPlain", "kw": "CKw", "noarg": "CNoArg", "kwonly": "CKwOnly", "raiseT": "CRaise",
@@ -73,7 +74,9 @@ def gen_spec(rng, i):
     exc["args"] = [rng.randrange(len(VALUES)) for _ in range(rng.choice([0, 0, 1, 1, 2, 3, 5]))]
     return {"ser": ["json", "msgpack", "cbor"][i % 3], "classes": classes, "callee_ops": callee_ops,
             "caller_ops": caller_ops, "exc": exc, "tb": rng.random() < 0.35,
-            "router_callee": 77 if rng.random() < 0.25 else None}
+            "router_callee": 77 if rng.random() < 0.25 else None,
+            "callee_hook": rng.choice(["returns", "returns", "raises", "raises_key"]),
+            "caller_hook": rng.choice(["returns", "returns", "raises", "raises_key"])}
 
 
 # ------------------------------------------------------------------ Coq terms
@@ -156,10 +159,12 @@ def coq_case(spec, obs):
         xd = "(XEscaped %s)" % obs["caller_raised"][0][1]
     else:
         xd = "XOther"
-    return ("(mkCase %s %s %s %s %s %s %s %s %s %s %s %s %s %s %s)" % (
+    return ("(mkCase %s %s %s %s %s %s %s %s %s %s %s %s %s %s %s %s %s)" % (
         clist(cstr(u) for u in bad), clist(cdefop(cl, o) for o in spec["callee_ops"]),
         clist(cdefop(cl, o) for o in spec["caller_ops"]), kinds, exn, "true" if spec["tb"] else "false",
         "(Some %s)" % cN(TB), copt(spec.get("router_callee"), cN),
+        "HookRaises" if str(spec.get("callee_hook", "")).startswith("raises") else "HookReturns",
+        "HookRaises" if str(spec.get("caller_hook", "")).startswith("raises") else "HookReturns",
         clist(cexc(r) for r in obs["callee_define"]), clist(cexc(r) for r in obs["caller_define"]),
         cstr(w["uri"]), tail, "true" if obs.get("reported") else "false",
         clist(cN(r) for r in obs.get("pending_after", [])), xd))
@@ -188,8 +193,12 @@ def judge(spec, obs):
     x = spec["exc"]
     w = obs.get("wire")
     if not w:
-        return [("callee/no-ERROR-sent", "the callee sent %s ERROR messages for one failed invocation (%s)" % (
-            obs.get("n_errors_sent"), obs.get("callee_raised")))]
+        key = "callee/no-ERROR-sent"
+        if str(spec.get("callee_hook", "")).startswith("raises") and obs.get("n_errors_sent") == 0:
+            key += "/onUserError-override-raised"
+        return [(key, "the callee sent %s ERROR messages for one failed invocation (callee onUserError hook: %s; %s): the "
+                 "caller's call never completes, the remote exception is lost" % (
+            obs.get("n_errors_sent"), spec.get("callee_hook"), obs.get("callee_raised")))]
     # 1. URI
     if x["cls"] == "app":
         want_uri = x["error"]
@@ -291,7 +300,8 @@ def shrink(ck, fw, spec, key):
         muts.append(lambda c: c["exc"].update(args=[]))
         for i in range(len(cur["exc"]["kwargs"] or [])):
             muts.append(lambda c, i=i: c["exc"]["kwargs"][i].__setitem__(1, 4) if i < len(c["exc"]["kwargs"]) else None)
-        muts += [lambda c: c.update(ser="json"), lambda c: c.update(router_callee=None), lambda c: c.update(tb=False)]
+        muts += [lambda c: c.update(ser="json"), lambda c: c.update(router_callee=None), lambda c: c.update(tb=False),
+                 lambda c: c.update(caller_hook="returns"), lambda c: c.update(callee_hook="returns")]
 
         def prune(c):
             used = {str(o[0]) for o in c["callee_ops"] + c["caller_ops"]} | ({str(c["exc"]["cls"])} - {"app"})
@@ -326,6 +336,7 @@ def run(ck):
         "8 exception classes per trial (0-2 @wamp.error URIs each, 10 constructor kinds) x 0-4 define() calls per side "
         "(incl. invalid ones) x exception (ApplicationError with carried URI | registered | unregistered class) x 0-5 args "
         "x kwargs (absent/empty/1-4 keys, 30% of trials drawing from traceback/error/self/enc_algo/callee/...) x "
+        "onUserError override on callee and on caller (returns | raises RuntimeError | raises KeyError) x "
         "traceback forwarding x router-added callee detail. non-trivial = an ERROR was produced; distinct = distinct "
         "canonical trial (classes pruned to those used)")
     ck.extra_tb += [
